@@ -9,13 +9,18 @@ ID = 'C17'
 LEVEL = 'proof'
 CLUSTER = 'B'
 GEN_UNITS = ['Consts', 'sql_runtime', 'sql_get_nokw', 'sql_get_cond', 'sql_get_query', 'sql_get_rows_step', 'sql_format_get_output', 'get_runtime', 'get_get']
-RULE = ('Databases of 1-3 structures (pdb2sql for one, many2sql for several; 30-4000 atoms per table, formula-generated so that the '
+RULE = ('Databases of 1-3 structures and of twelve (pdb2sql for one, many2sql for several; 20-4000 atoms per table, formula-generated so that the '
         'Lean side rebuilds the same records). One condition carries a value list of length L in {0,1,2,949,950,951,998,999,1000,'
         '1899,1900,1901,2851} or a random length up to 3000, on rowID / serial / resSeq / name / x, positive or negated, values in '
         'ascending / descending / shuffled order, with duplicates inside a chunk and across chunks, hitting and missing; alone or '
         'with further conditions (scalar, short list, a second long list; including combinations whose weights exceed 999 -> the '
         'documented error); every table name of the database; through get, get_all and update (the state of EVERY table is compared '
-        'after the update). The real code runs under a lowered recursion limit, so unbounded recursion is a reported outcome. '
+        'after the update). Multi-structure databases also carry USER-CHOSEN table names given in an order that is not the alphabetical '
+        'one (byte-wise or ignoring case: wt/mutant/apo, bound/Free, random draws from a pool of identifiers) and twelve structures under '
+        'the default names (ATOM10 sorts before ATOM2); get_all is compared PER POSITION (entry i = the selection on structure i). '
+        'PER-STRUCTURE (extra check): get_all per position, get by table name and the sub-selection db(**conditions) (its get_all per '
+        'position and its tables by name) against a plain-Python row-by-row evaluation of the conditions on the records of each structure, '
+        'short and long lists, positive and negated. The real code runs under a lowered recursion limit, so unbounded recursion is a reported outcome. '
         'Non-trivial: list longer than 950 or a non-default table or a combined-limit case, distinct by content. '
         'SQL TEXT TIE (extra check): for calls with one over-long list the COMPLETE sequence of statements the real get() sends to the '
         'sqlite3 cursor (recorded by a proxy around db.c) is compared with the sequence the TRANSLATED builders predict: one '
@@ -48,7 +53,7 @@ def obj_of(spec):
     """spec: list of (name, n, salt); one table -> pdb2sql, several -> many2sql"""
     key = tuple(spec)
     if key not in _OBJ:
-        if len(_OBJ) > 6:
+        if len(_OBJ) > 16:
             _OBJ.clear()
         tables = [gen_rows(n, salt) for _, n, salt in spec]
         lines = [[B.atom_line(r) for r in rows] for rows in tables]
@@ -56,12 +61,44 @@ def obj_of(spec):
             db = build(tables[0])
             names = ['atom']
         else:
-            db = call(lambda: many2sql([l for l in lines], tablenames=[nm for nm, _, _ in spec]))
             names = [nm for nm, _, _ in spec]
+            # the default names are produced by the library itself (tablenames=None) for part of the databases
+            tns = None if names == default_names(len(spec)) and spec[0][2] % 2 == 0 else names
+            db = call(lambda: many2sql([l for l in lines], tablenames=tns))
         for nm, rows in zip(names, tables):
             B.check_parse(db, rows, tn=nm)
         _OBJ[key] = db
     return _OBJ[key]
+
+
+def default_names(k):
+    return ['ATOM'] + ['ATOM%d' % i for i in range(1, k)]
+
+
+# table names a user may choose (identifiers, no SQL keywords, distinct when letter case is ignored)
+USER_NAMES = ['wt', 'mutant', 'apo', 'holo', 'Free', 'bound', 'Complex', 'ligand', 'chainA', 'Zn_site', 'model_2', 'b2', 'B10', 'receptor', 'Ab']
+
+
+def user_spec(rng, k):
+    """k structures under user-chosen names, in the order the USER gives them: not the alphabetical one (neither byte-wise
+    nor ignoring letter case), so that 'position i of the constructor' and 'i-th name in some sorted listing' differ"""
+    while True:
+        names = rng.sample(USER_NAMES, k)
+        if names != sorted(names) and names != sorted(names, key=str.lower):
+            break
+    return [(nm, rng.randrange(30, 95), rng.randrange(0, 12)) for nm in names]
+
+
+def multi_specs(rng):
+    """multi-structure databases whose creation order is not the alphabetical order of the table names"""
+    return [
+        [('wt', 80, 2), ('mutant', 45, 9), ('apo', 60, 4)],
+        [('bound', 70, 3), ('Free', 50, 8)],                       # upper case sorts first byte-wise
+        user_spec(rng, 3),
+        user_spec(rng, 2),
+        # eleven or more structures under the default names: ATOM10 / ATOM11 sort before ATOM2
+        [(nm, 22 + (5 * i) % 13, 3 * i + 1) for i, nm in enumerate(default_names(12))],
+    ]
 
 
 def dbj_of(spec):
@@ -138,7 +175,9 @@ def cases(ctx):
         [('s1', 90, 2), ('s2', 35, 9)],
         [('ATOM', 1100, 0), ('ATOM1', 1300, 4)],
     ]
+    specs += multi_specs(rng)
     small = [s for s in specs if sum(n for _, n, _ in s) <= 400]
+    multi = [s for s in small if len(s) > 1]
     empty = [('atom', 0, 0)]
     big = [('atom', 4000, 1)]
     nper = ctx.scale(2, 8)
@@ -209,8 +248,9 @@ def cases(ctx):
         kws = [(rng.choice(['', 'no_']) + key, value_list(rng, key, 4000, L, rng.choice(['asc', 'desc', 'shuffled']), 'across'))]
         add(big, 'rowID', 'atom', kws, 'big-table')
     # --- get_all
-    for rep in range(ctx.scale(10, 60)):
-        spec = rng.choice([s for s in (specs if rep % 6 == 0 else small) if len(s) > 1])
+    for rep in range(ctx.scale(16, 80)):
+        # every multi-structure database in turn (entry i of the answer must be the selection on structure i)
+        spec = rng.choice([s for s in specs if len(s) > 1]) if rep % 8 == 7 else multi[rep % len(multi)]
         key = rng.choice(['rowID', 'serial', 'name'])
         L = rng.choice([2, 950, 951, 1000, 1901])
         kws = [(rng.choice(['', 'no_']) + key, value_list(rng, key, spec[0][1], L, 'shuffled', 'across'))] + further_conds(rng, {key}, 50, rng.choice(['none', 'scalar']))
@@ -329,8 +369,114 @@ def gen_get_checks(ctx):
 # ---- getTie: end -------------------------------------------------------------------------------------------------------
 
 
+# ---------------------------------------------------------------------------------------------------------
+# "nor on which table of a multi-structure database is addressed ... never another table's rows": get_all, get by
+# name and the sub-selection db(**conditions) against the property's row-by-row evaluation of each STRUCTURE (plain
+# Python over the generated records; conditions whose values have the attribute's own type, so that `==` is the
+# property's "equals")
+# ---------------------------------------------------------------------------------------------------------
+
+OBS_COLS = 'serial,name,resSeq,x'
+
+
+def rowwise(rows, kws, cols=OBS_COLS):
+    """the property's definition: every row, in input order, for which every condition holds"""
+    idx = [B.STD.index(c) for c in cols.split(',')]
+    conds = []
+    for k, v in kws:
+        neg = k.startswith('no_')
+        key = k[3:] if neg else k
+        conds.append((neg, key, set(v) if isinstance(v, list) else {v}))
+    out = []
+    for rid, r in enumerate(rows):
+        if all(((rid if key == 'rowID' else r[B.STD.index(key)]) in vs) != neg for neg, key, vs in conds):
+            out.append([jval(r[i]) for i in idx])
+    return out
+
+
+def total(x):
+    """whatever the library returned, as something comparable (never an exception of the harness)"""
+    try:
+        return x if is_err(x) else canon(x)
+    except Exception as e:
+        return 'UNREADABLE:' + repr(e)[:80] + ':' + short(x, 120)
+
+
+def per_structure_checks(ctx):
+    rng = ctx.rng
+    multi = [[('ATOM', 40, 0), ('ATOM1', 55, 7)], [('s1', 90, 2), ('s2', 35, 9)]] + multi_specs(rng)
+    res, n, nsub, nempty, nlong = [], 0, 0, 0, 0
+    for rep in range(ctx.scale(15, 90)):
+        spec = multi[rep % len(multi)]
+        names = [nm for nm, _, _ in spec]
+        tables = [gen_rows(m, salt) for _, m, salt in spec]
+        key = ['serial', 'rowID', 'resSeq', 'name'][(rep // len(multi)) % 4]
+        L = rng.choice([1, 2, 949, 950, 951, 1000, 1901, rng.randrange(3, 2500)])
+        neg = rng.choice(['', 'no_'])
+        vals = value_list(rng, key, max(len(t) for t in tables), L, rng.choice(['asc', 'desc', 'shuffled', 'asis']), rng.choice(['none', 'within', 'across']))
+        kws = [(neg + key, vals)]
+        if rng.random() < 0.5:
+            kws.append(rng.choice([('no_name', ['CB']), ('resName', ['ALA', 'TRP']), ('no_resSeq', 3), ('name', ['CA', 'N', 'O'])]) if key not in ('name', 'resSeq')
+                       else rng.choice([('no_serial', [1, 2, 3]), ('resName', 'GLY')]))
+        want = [rowwise(t, kws) for t in tables]
+        db = obj_of(spec)
+        kw = dict(kws)
+        if rep % 3 == 0:
+            kw = B.np_carry(kw)
+        case = {'structures': [{'tablename': nm, 'records': f'gen_rows(n={m}, salt={salt})'} for nm, m, salt in spec], 'columns': OBS_COLS,
+                'conditions': [(k, (v if not isinstance(v, list) or len(v) <= 12 else {'values': len(v), 'first': v[:12]})) for k, v in kws]}
+        n += 1
+        nlong += L > 950
+        bad = None
+        every = total(call(lambda: db.get_all(OBS_COLS, **kw)))
+        if not isinstance(every, list) or len(every) != len(spec):
+            bad = {'get_all returned': short(every), 'expected': f'{len(spec)} entries'}
+        for i, nm in enumerate(names):
+            if bad:
+                break
+            if every[i] != want[i]:
+                other = [j for j in range(len(spec)) if every[i] == want[j]]
+                bad = {'observation': f'get_all()[{i}] must be the selection on structure {i} (table {nm})', 'is the selection on structure(s)': other,
+                       'got': short(every[i]), 'row-by-row': short(want[i])}
+                break
+            one = total(call(lambda: db.get(OBS_COLS, tablename=nm, **kw)))
+            if one != want[i]:
+                bad = {'observation': f'get(tablename={nm!r})', 'got': short(one), 'row-by-row': short(want[i])}
+        if not bad:
+            sub = call(lambda: db(**kw))
+            if any(not w for w in want):
+                nempty += 1                                   # a structure left without atoms has no table in the new database: not compared
+            elif is_err(sub):
+                bad = {'observation': 'db(**conditions)', 'got': sub, 'row-by-row': 'every structure keeps atoms'}
+            else:
+                nsub += 1
+                sub_all = total(call(lambda: sub.get_all(OBS_COLS)))
+                if not isinstance(sub_all, list) or len(sub_all) != len(spec):
+                    bad = {'db(**conditions).get_all returned': short(sub_all), 'expected': f'{len(spec)} entries'}
+                for i, nm in enumerate(names):
+                    if bad:
+                        break
+                    if sub_all[i] != want[i]:
+                        other = [j for j in range(len(spec)) if sub_all[i] == want[j]]
+                        bad = {'observation': f'db(**conditions).get_all()[{i}] must hold the selection on structure {i} (table {nm})',
+                               'is the selection on structure(s)': other, 'got': short(sub_all[i]), 'row-by-row': short(want[i])}
+                        break
+                    one = total(call(lambda: sub.get(OBS_COLS, tablename=nm)))
+                    if one != want[i]:
+                        bad = {'observation': f'db(**conditions).get(tablename={nm!r})', 'got': short(one), 'row-by-row': short(want[i])}
+                call(lambda: sub._close())
+        if bad:
+            res.append({'name': 'every structure of a multi-structure database answers with its own rows (get_all per position, get by name, db(**conditions))',
+                        'ok': False, 'case': dict(case, **bad), 'kind': 'per-structure',
+                        'detail': 'row-by-row evaluation of the conditions on the records of structure i, in the order the structures were given to many2sql'})
+            break
+    res.append({'name': f'per-structure answers = row-by-row evaluation on that structure ({n} selections, {nlong} with a list > 950, {nsub} sub-selections '
+                        f'compared, {nempty} with an emptied structure)', 'ok': n >= 10 and nsub >= 3 or len(res) > 0, 'case': None, 'detail': '', 'kind': 'per-structure'})
+    return res
+
+
 def extra_checks(ctx):
-    return sql_text_checks(ctx) + gen_get_checks(ctx)
+    return sql_text_checks(ctx) + gen_get_checks(ctx) + per_structure_checks(ctx)
 
 
 def search_cases(ctx):
@@ -420,10 +566,12 @@ def agree_spec(c, out, spec):
             return B.agree_answer_spec(out, bad[0])
         if len(out) != len(spec):
             return 'number of tables'
-        for o, s in zip(out, spec):
+        for i, (o, s) in enumerate(zip(out, spec)):
             r = B.agree_answer_spec(o, s)
             if r is not True:
-                return r
+                other = [j for j, s2 in enumerate(spec) if j != i and B.agree_answer_spec(o, s2) is True]
+                return (f'get_all()[{i}] is not the row-by-row selection on structure {i} (table {c["spec"][i][0]})'
+                        + (f' but the one on structure(s) {other}' if other else '') + ': ' + r)
         return True
     return B.agree_answer_spec(out, spec)
 
